@@ -11,7 +11,7 @@ from .. import env, refmath
 
 ID = "C04"
 LEVEL = "exploration"
-BUDGET = {"quick": 2000, "thorough": 100000}
+BUDGET = {"quick": 2000, "thorough": 180000}
 SHARDS = {"quick": 8, "thorough": 16}
 RULE = (
     "case = transform class (Logit, Probit, Periodic, Affine, Identity, Composite with every on/off combination of "
